@@ -23,7 +23,12 @@ def closure_of(modname, qual=None, node=None, ordinal=None):
         node = repo.find_function(modname, qual, ordinal)
         if node is None:
             return None
-    return Closure(node, Env(m), m, qual or node.name)
+    clo = Closure(node, Env(m), m, qual or node.name)
+    if qual and '.' in qual:
+        K = getattr(m, qual.split('.')[0], None)
+        if isinstance(K, type):
+            clo.defcls = K
+    return clo
 
 
 def explore_function(modname, qual, make_args, ex=None, node=None, ordinal=None, setup=None):
